@@ -1,6 +1,7 @@
 """C15 correspondence: SlidingBoundariesArchive (buffer, remap, boundaries, re-insertion) vs Model/Sliding.v,
 plus an independent oracle stating the clauses of C15 directly on the implementation's outputs."""
 import random
+import py2v_sliding
 from fractions import Fraction
 
 import numpy as np
@@ -12,8 +13,12 @@ CONFIG = {
     "cone": ["Base/ListUtil.v", "Base/QUtil.v", "Base/FirstArgmax.v", "Base/MixedRadix.v", "Model/Store.v", "Proofs/StoreProofs.v",
              "Model/Archive.v", "Proofs/ArchiveProofs.v", "Proofs/C01Proofs.v", "Proofs/C02Proofs.v", "Proofs/C07Proofs.v",
              "Model/Sliding.v", "Proofs/SlidingProofs.v", "Model/Grid.v", "Model/SlidingIndex.v", "Proofs/SlidingBridge.v",
-             "Properties/C15.v"],
-    "trusted": ["Model/Sliding.v is a hand-written model of _sliding_boundaries_archive.py tied by the correspondence run (sampled): whole "
+             "Properties/C15.v", "Model/SlidingFacts.v", "Generated/SlidingGen.v", "Refine/SlidingRefine.v"],
+    "extra_property_files": ["Refine/SlidingRefine.v"],
+    "trusted": ["harness/py2v_sliding.py: fail-closed reader of SolutionBuffer / _remap / add_single / add into Generated/SlidingGen.v on every run; "
+                "Refine/SlidingRefine.v proves the translated index / trigger / full tests equal to Model/Sliding.v's for all arguments and compares the "
+                "statement-level facts",
+                "Model/Sliding.v is a hand-written model of _sliding_boundaries_archive.py tied by the correspondence run (sampled): whole "
                 "histories through several remaps, compared after every operation on feedback, data() incl. measures, boundaries, bounds, "
                 "statistics and best elite",
                 "sortedcontainers.SortedList is modelled as the sorted multiset of the buffered coordinates (not its add/remove code)",
@@ -347,6 +352,7 @@ def tagger(spec, ops, d, orc):
 
 
 def check(rep, tier, seed, driver):
+    py2v_sliding.report(rep)
     rng = random.Random(seed)
     n = 250 if tier == "quick" else 5000
     rep.rule = ("random SlidingBoundariesArchive configurations (1-3 dims, remap_frequency 1-9, buffer_capacity below/equal/above it, both dtypes, "
